@@ -745,7 +745,9 @@ func (hs *clientHandshakeState) doFullHandshake() error {
 		//
 		// See https://mitls.org/pages/attacks/3SHAKE for the
 		// motivation behind this requirement.
-		if !bytes.Equal(c.peerCertificates[0].Raw, certMsg.certificates[0]) {
+		// [uTLS] a session forged with MakeClientSessionState may carry no
+		// certificates: there is no identity to compare the new one with.
+		if len(c.peerCertificates) == 0 || !bytes.Equal(c.peerCertificates[0].Raw, certMsg.certificates[0]) {
 			c.sendAlert(alertBadCertificate)
 			return errors.New("tls: server's identity changed during renegotiation")
 		}
